@@ -57,7 +57,7 @@ def obligations(tier):
     qn = {0, 1, 2, 3, 7, 256, 257, 65537, 0x7FFFFFFF, 0x80000000, 0x80000001, 0xAAAAAAAB, 0xFFFFFFFF}
     for n in sorted(ns):
         obs.append(Ob("uniform-n%d" % n, "C18/uniform.c", units=["randombytes/randombytes.c"], stubs=["misuse.c"],
-                      defs={"NDRAW": 3, "NVAL": "%dU" % n}, unwind=7, timeout=300, family="uniform",
+                      defs={"NDRAW": 3, "NVAL": "%dU" % n}, unwind=7, timeout=1200, family="uniform",
                       tier="quick" if n in qn else "thorough",
                       desc="randombytes_uniform: rejection sampling exact for all draw sequences; random/buf delegate to installed source",
                       bounds="upper bound enumerated (%d values: 0..3, powers of two +-1, 2^31+-1, 2^32-1, ...), all 32-bit draws r1..r3, acceptance within 3 draws" % len(ns)))
